@@ -129,7 +129,7 @@ class SpiSpec(Spec):
                 raise Violation("word-value", dict(expected=st["pending"], got=o.word_in, words_done=st["k"]))
             st["pending"] = -1
             self.cover["report"] += 1
-            self.cover["report_word%d" % min(st["k"] + (1 if st["j"] else 0), 3)] += 1
+            self.cover["report_word%d" % min(st["k"] + st.get("_closing", 0), 3)] += 1
         return o
 
     def _need_reported(self, st, when):
@@ -162,12 +162,14 @@ class SpiSpec(Spec):
         self._need_reported(st, "next sample edge")
         if j + 1 == ws:
             st["pending"] = v          # completed by the edge the device sees in the next cycle
+            st["_closing"] = 1         # (transient, cover bookkeeping: k is incremented at the end of this step)
         for i in range(h):
             sdi = b if (not self.narrow or i == 0) else 1 - b
             o = self._cyc(cur, st, lv_b, sdi, self.cs_on)
             if self.cpha == 1 and i == 0: self._check_sdo(st, o, "first cycle after the sample edge")
         st["j"] = j + 1
         if st["j"] == ws:
+            st["_closing"] = 0
             st["k"] += 1
             st["j"] = 0
             st["txcur"] = st["wout"]
